@@ -109,10 +109,11 @@ theorem runOps_append (c : Ctx) (a b : List Op) (s : State) :
     | none => simp
     | some s' => simp [ih]
 
-/-- a final OP_CHECKSIG against key `k` succeeds only on exactly one fresh signature by `k`. -/
+/-- a final OP_CHECKSIG against key `k` succeeds only on exactly one signature by
+    `k` that commits to the transaction. -/
 theorem checksig_final (c : Ctx) (k : Key) (rest : Stack)
     (h : accepts (runOps c [.checkSig] { stack := .key k :: rest, cond := [] }) = true) :
-    ∃ ht, rest = [.sig k ht true] := by
+    ∃ ht o, rest = [.sig k ht o] ∧ sigOk c ht o = true := by
   match rest with
   | [] => simp [runOps, step, exec, opCheckSig, accepts] at h
   | sg :: rest' =>
@@ -122,12 +123,12 @@ theorem checksig_final (c : Ctx) (k : Key) (rest : Stack)
       | zero =>
         cases rest' <;> simp [runOps, step, exec, opCheckSig, sigCheck, accepts, truthy] at h
       | succ m => simp [runOps, step, exec, opCheckSig, sigCheck, accepts] at h
-    | sig k' ht fresh =>
-      by_cases hk : k' = k ∧ fresh = true
-      · obtain ⟨rfl, rfl⟩ := hk
+    | sig k' ht o =>
+      by_cases hk : k' = k ∧ sigOk c ht o = true
+      · obtain ⟨rfl, hok⟩ := hk
         cases rest' with
-        | nil => exact ⟨ht, rfl⟩
-        | cons y ys => simp [runOps, step, exec, opCheckSig, sigCheck, accepts] at h
+        | nil => exact ⟨ht, o, rfl, hok⟩
+        | cons y ys => simp [runOps, step, exec, opCheckSig, sigCheck, accepts, hok] at h
       · simp [runOps, step, exec, opCheckSig, sigCheck, accepts, hk] at h
     | _ => simp [runOps, step, exec, opCheckSig, sigCheck, accepts] at h
 
@@ -137,8 +138,8 @@ theorem delayOrRevoke_split (rev delay : Key) (csv : Nat) :
 
 theorem excl_stack (c : Ctx) (rev delay : Key) (csv : Nat) (st : Stack)
     (h : accepts (runOps c (delayOrRevoke rev delay csv) { stack := st, cond := [] }) = true) :
-    (∃ ht, st = [.num 1, .sig rev ht true]) ∨
-    (∃ ht, st = [.num 0, .sig delay ht true] ∧ csvOk c csv = true) := by
+    (∃ ht o, st = [.num 1, .sig rev ht o] ∧ sigOk c ht o = true) ∨
+    (∃ ht o, st = [.num 0, .sig delay ht o] ∧ sigOk c ht o = true ∧ csvOk c csv = true) := by
   rw [delayOrRevoke_split, runOps_append] at h
   match st with
   | [] => simp [runOps, step, exec, opIfE, accepts] at h
@@ -153,8 +154,8 @@ theorem excl_stack (c : Ctx) (rev delay : Key) (csv : Nat) (st : Stack)
               { stack := .num 0 :: rest, cond := [] } = some { stack := .key delay :: rest, cond := [] } := by
             simp [runOps, step, exec, skip, opIfE, opElseE, opEndIfE, opCsv, opDrop, ifArg, pk, n, hc]
           rw [e] at h
-          obtain ⟨ht, hr⟩ := checksig_final c delay rest h
-          exact ⟨ht, by rw [hr], hc⟩
+          obtain ⟨ht, o, hr, hok⟩ := checksig_final c delay rest h
+          exact ⟨ht, o, by rw [hr], hok, hc⟩
         · have e : runOps c [.opIf, pk rev, .opElse, n csv, .csv, .drop, pk delay, .opEndIf]
               { stack := .num 0 :: rest, cond := [] } = none := by
             simp [runOps, step, exec, skip, opIfE, opElseE, opEndIfE, opCsv, opDrop, ifArg, pk, n, hc]
@@ -166,8 +167,8 @@ theorem excl_stack (c : Ctx) (rev delay : Key) (csv : Nat) (st : Stack)
             { stack := .num 1 :: rest, cond := [] } = some { stack := .key rev :: rest, cond := [] } := by
           simp [runOps, step, exec, skip, opIfE, opElseE, opEndIfE, opCsv, opDrop, ifArg, pk, n]
         rw [e] at h
-        obtain ⟨ht, hr⟩ := checksig_final c rev rest h
-        exact ⟨ht, by rw [hr]⟩
+        obtain ⟨ht, o, hr, hok⟩ := checksig_final c rev rest h
+        exact ⟨ht, o, by rw [hr], hok⟩
       | k + 2 => simp [runOps, step, exec, opIfE, ifArg, accepts] at h
     | _ => simp [runOps, step, exec, opIfE, ifArg, accepts] at h
 
